@@ -7,7 +7,7 @@ import sympy as sp
 
 from .opaque import linear, homogeneous, F
 from .report import AnalysisError
-from .sym import (LIB, Tup, SliceV, RangeV, BoundLib, LibV, as_sym, is_sym, Obj, _const_int, ArrV)
+from .sym import (LIB, Tup, DictV, SliceV, RangeV, BoundLib, LibV, as_sym, is_sym, Obj, _const_int, ArrV)
 
 
 class LoopIdx:
@@ -48,6 +48,16 @@ class SeqV:
 
     def sym_iter(self, ev, n, mod):
         return [EachOf(self)]
+
+    def sym_store(self, ev, idx, v, t, mod):
+        if isinstance(idx, LoopIdx):
+            self.elem = v       # every element is replaced by the same elementwise expression
+            self.rewritten = getattr(self, "rewritten", 0) + 1
+            return
+        raise ev.err("store into a symbolic sequence at a non-loop index", t, mod)
+
+    def sym_len(self):
+        return sp.Symbol("NSEQ", positive=True, integer=True)
 
 
 class EachOf:
@@ -146,6 +156,10 @@ class ILocV:
     def sym_subscript(self, ev, idx, n, mod):
         items = idx.items if isinstance(idx, Tup) else [idx]
         rows = items[0]
+        if isinstance(rows, LoopIdx) and all(isinstance(i, SliceV) and i.lo is None and i.hi is None and i.step is None for i in items[1:]):
+            return RowV(self.df)
+        if is_sym(rows) and rows.is_Integer and all(isinstance(i, SliceV) and i.lo is None and i.hi is None and i.step is None for i in items[1:]):
+            return RowV(self.df, int(rows))
         if isinstance(rows, SliceV) and rows.lo is None and rows.hi is None:
             out = self.df.copy()
             out.sampled = rows.step
@@ -156,7 +170,16 @@ class ILocV:
 def lib_dataframe(ev, a, k, n, mod):
     index = k.get("index")
     if a:
-        raise ev.err("DataFrame(data) is not modelled", n, mod)
+        data = a[0]
+        if isinstance(data, Tup) and getattr(data, "elementwise", False) and len(data.items) == 1 and isinstance(data.items[0], DictV):
+            d = data.items[0]
+            cols = {}
+            for kk, vv in d.d.items():
+                if not isinstance(kk, str):
+                    raise ev.err("DataFrame column name is not a constant string", n, mod)
+                cols[kk] = as_sym(vv)
+            return DFV(sp.Symbol("NSEQ", positive=True, integer=True), cols)
+        raise ev.err("DataFrame(data) of this shape is not modelled", n, mod)
     if isinstance(index, RangeV):
         nrows = sp.Integer(index.hi - index.lo)
     elif isinstance(index, SymRange):
@@ -169,6 +192,28 @@ def lib_dataframe(ev, a, k, n, mod):
 class SymRange:
     def __init__(self, n):
         self.n = n
+
+    def sym_iter(self, ev, n, mod):
+        return [LoopIdx(self)]
+
+
+class RowV:
+    """df.iloc[i, :] for the loop index i: the row as (name, elementwise value) pairs"""
+
+    def __init__(self, df, const_row=None):
+        self.df = df
+        if const_row is not None:
+            self.df = DFV(df.nrows, {k: linear("AT", [v, sp.Integer(const_row)], 0) for k, v in df.cols.items()})
+
+    def sym_getattr(self, ev, name, node, mod):
+        if name == "items":
+            return BoundLib("row.items", self)
+        raise ev.err(f"row attribute {name}", node, mod)
+
+    def sym_subscript(self, ev, idx, n, mod):
+        if isinstance(idx, str) and idx in self.df.cols:
+            return self.df.cols[idx]
+        raise ev.err("row subscript", n, mod)
 
 
 def lib_range_sym(ev, a, k, n, mod):
@@ -255,10 +300,28 @@ def lib_round(ev, a, k, n, mod):
     return F("ROUND")(as_sym(a[0]))
 
 
+def lib_row_items(ev, a, k, n, mod):
+    return Tup([Tup([nm, v]) for nm, v in a[0].df.cols.items()], "list")
+
+
+def lib_len_seq(ev, a, k, n, mod):
+    if hasattr(a[0], "sym_len"):
+        return a[0].sym_len()
+    from .sym import lib_len
+    return lib_len(ev, a, k, n, mod)
+
+
 DF_LIB = {
+    "row.items": lib_row_items, "len": lib_len_seq,
     "pandas.DataFrame": lib_dataframe, "range": lib_range_sym, "numpy.linspace": lib_linspace,
     "numpy.min": lib_min, "numpy.max": lib_max, "numpy.amin": lib_min, "numpy.amax": lib_max,
     "scipy.interpolate.InterpolatedUnivariateSpline": lib_ius, "numpy.gradient": lib_gradient,
     "identity": lib_identity, "ndarray.to_numpy": lib_to_numpy, "numpy.array": lib_np_array,
     "DataFrame.to_string": lib_df_to_string, "round": lib_round,
 }
+
+
+lib_dataframe.kw = {"index"}
+lib_linspace.kw = {"num"}
+lib_to_numpy.kw = {"copy"}
+lib_df_to_string.kw = {"index", "header"}
